@@ -156,7 +156,10 @@ class SymAny:
         raise OutOfReach("hash of opaque symbolic value")
 
     def __bool__(self):
-        raise OutOfReach("truth value of an opaque symbolic value")
+        # truthiness of an opaque value: None is falsy, anything else may be either (0, "", [] ... are
+        # values too) - an uninterpreted predicate, so a proof holds for every content of the value
+        truthy = z3.Function("any_truthy", AnySort, z3.BoolSort())
+        return _c().branch(z3.And(self.t != z3.Const("any_none", AnySort), truthy(self.t)), site="anybool")
 
     def __repr__(self):
         return f"SymAny({self.t})"
